@@ -136,6 +136,23 @@ def who(line):
     return None
 
 
+def order_queries(lines):
+    """Queries that one step sends to DIFFERENT services go out in the order of the services' table slots, which depends on what
+    earlier reloads left in the table (a retired service kept for other clients' answers occupies a slot).  That order means nothing
+    to the server - each X line goes to another service - so consecutive X lines are compared sorted by service (stable: two
+    queries to one service keep their order)."""
+    out = []
+    run = []
+    for ln in lines:
+        if ln.startswith("X "):
+            run.append(ln)
+        else:
+            out += sorted(run, key=lambda l: l.split(" ")[1])
+            run = []
+            out.append(ln)
+    return out + sorted(run, key=lambda l: l.split(" ")[1])
+
+
 def run_merge(b, cfg, scripts, order, audit_every=50):
     """order: list of client ids, one entry per script action.  Returns (per-client conversations, audit results, Result, n_steps)."""
     s = proto.Session(b, cfg)
@@ -182,7 +199,7 @@ def run_merge(b, cfg, scripts, order, audit_every=50):
                     mine.append(norm(cid, ln))
                 elif w in conv:
                     conv[w].append((-1, "during step of client %d (%s): %s" % (cid, proto.render(ev), norm(w, ln))))
-            conv[cid].append((k, mine))
+            conv[cid].append((k, order_queries(mine)))
             if s.dead:
                 break
             if audit_every and nsteps % audit_every == 0:
